@@ -19,6 +19,7 @@ const (
 	whatTaskEarly  = "a call returned before the background task of its buffer completed"
 	whatTaskErr    = "a background task's error was dropped although the data was fine"
 	whatProgData   = "a buffer delivered bytes that differ from the blob"
+	whatProgChunk  = "a chunk reader delivered a chunk larger than asked for"
 )
 
 // taskUnderClone: some CloneStream/CloneCopy is applied to a value that carries a WithTask.
@@ -161,7 +162,7 @@ func (c *progCase) oracle(p *progRun) (whats []string, detail string) {
 		add(whatProgData, fmt.Sprintf("%v returned %x, expected %x", c.method, p.data, c.expected(p)))
 	}
 	if p.maxChunk > c.chunk {
-		add(whatProgData, fmt.Sprintf("chunk of %d bytes, asked for at most %d", p.maxChunk, c.chunk))
+		add(whatProgChunk, fmt.Sprintf("chunk of %d bytes, asked for at most %d", p.maxChunk, c.chunk))
 	}
 	success := c.readsAll() && strings.HasPrefix(p.res, "ok:") && !p.eof && p.cerr == "-"
 	if success {
